@@ -97,7 +97,7 @@ def run_group(g):
         scal = [e2 if e2 else guarded(lambda: int(sc(x))) for x in xs]
         if err:
             return dict(array=err, scalar=scal)
-        arr = build_array(xs, g["shape"], g["layout"], np.float64)
+        arr = build_array(xs, g["shape"], g["layout"], getattr(np, g.get("dtype", "float64")))
         r = guarded(lambda: conv(arr))
         if isinstance(r, str):
             return dict(array=r, scalar=scal)
